@@ -340,6 +340,10 @@ class Operation(Unit):
         return None
 
     def replay(self, model, label):
+        if label.startswith('frame.') and self.op in ('authenticate', 'refresh'):
+            rp = replay_two_tokens()
+            if rp['confirmed']:
+                return rp
         return replay_op(self.op, label)
 
     def bounded(self, rng, tier):
@@ -361,6 +365,11 @@ class Operation(Unit):
             cnt += rp['n']
             if rp['confirmed']:
                 fails.insert(0, dict(call=rp['call'], observed=rp['observed'], witness='join-state'))
+        if self.op in ('authenticate', 'refresh'):
+            rp = replay_two_tokens()
+            cnt += rp['n']
+            if rp['confirmed']:
+                fails.insert(0, dict(call=rp['call'], observed=rp['observed'], witness='two-tokens'))
         return dict(name=self.name + '.stub-grid', evaluations=cnt, failures=fails[:2],
                     bound='6 error statuses x 15 reply bodies through a stub of requests.post' +
                           ('; join on all 3^5 presence combinations of the token fields' if self.op == 'join' else ''))
@@ -424,6 +433,35 @@ def replay_success(op):
         return dict(confirmed=bad, call='%s with reply 200 %s' % (op, body), observed='%s %r, token now %r' % (k, r, got))
     finally:
         requests.post = orig
+
+
+def replay_two_tokens():
+    """SEVERAL tokens in one process (two accounts): what one token stores after authenticate / refresh is its own - a later
+    success on another token must not change it (seeded change C19-r13: one default Profile() shared by every token)."""
+    def reply(n):
+        return '{"accessToken": "A%d", "clientToken": "C%d", "selectedProfile": {"id": "I%d", "name": "N%d"}}' % (n, n, n, n)
+    orig = requests.post
+    state = {'n': 0}
+
+    def post(*a, **k):
+        state['n'] += 1
+        return _Resp(200, reply(state['n']))
+    requests.post = post
+    try:
+        for ops in (('authenticate', 'authenticate'), ('authenticate', 'refresh'), ('refresh', 'authenticate'), ('refresh', 'refresh')):
+            state['n'] = 0
+            toks = [AuthenticationToken('user%d' % j, 'access%d' % j, 'client%d' % j) for j in (1, 2)]
+            for t, op in zip(toks, ops):
+                k, r = native_call(t.authenticate, 'u', 'p') if op == 'authenticate' else native_call(t.refresh)
+            got = [(t.access_token, t.client_token, t.profile.id_, t.profile.name) for t in toks]
+            want = [('A1', 'C1', 'I1', 'N1'), ('A2', 'C2', 'I2', 'N2')]
+            if got != want or toks[0].profile is toks[1].profile:
+                return dict(confirmed=True, n=4, call='two tokens in one process: %s on the first, then %s on the second' % ops,
+                            observed='the tokens now hold %r, expected %r (profile object shared: %r)'
+                                     % (got, want, toks[0].profile is toks[1].profile))
+    finally:
+        requests.post = orig
+    return dict(confirmed=False, n=4, call='two tokens', observed='independent')
 
 
 def replay_join_states():
